@@ -1,4 +1,5 @@
 import CalicoVerif.Proofs.C37
+import CalicoVerif.Proofs.C37Ident
 import CalicoVerif.Gen.C37
 /-!
 C37 — Length-limited kernel object names never collide.
@@ -306,5 +307,133 @@ theorem ipset_names (p s1 s2 : Str) (M : Nat) (hp : p.length ≤ M) :
 
 example : nameForMainIPSet Gen.ipSetNamePrefix false Gen.mainIpsetToken Gen.maxIPSetNameLength
     [115, 58, 65, 66] = [99, 97, 108, 105, 52, 48, 115, 58, 65, 66] := by decide
+
+/-! ### 5. The identity strings themselves
+
+Distinct objects must first of all have distinct identity strings: what is
+passed as `suffix` (`PolicyID.ID()`, `ProfileID.ID()` = the name, the interface
+name) and what `PolicyGroup.UniqueID()` feeds into its hash. The formats are
+taken from the source by the translator (`policyString_shape`,
+`policyID_shape`, `groupWrite_shape`, `kindShortTable_facts` are the tie
+obligations: a changed format/shape no longer proves).
+
+Alphabet guard = what v3 validation guarantees: names and namespaces are
+DNS-1123 strings (`validName`: `a-z 0-9 - .`), kinds come from the
+`KindShortName` table (`knownKind`), a selector contains no newline. -/
+
+/-- A group whose fields respect the alphabet guard. -/
+def Group.valid (g : Group) : Prop :=
+  10 ∉ g.selector ∧ ∀ p ∈ g.policies, validName p.name ∧ validName p.namespace_ ∧ 10 ∉ p.kind
+
+/-- `PolicyID.ID()` (the identity used for policy chain names) is injective on
+validated policies: Kind, Namespace and Name all matter. -/
+theorem policy_id_injective {p q : PolicyID} (kp : knownKind p.kind) (kq : knownKind q.kind)
+    (hp : validName p.name ∧ validName p.namespace_) (hq : validName q.name ∧ validName q.namespace_)
+    (h : p.id = q.id) : p = q :=
+  policyID_injective kp kq
+    ⟨validName_not_mem hp.1 not_dns_47, validName_not_mem hp.2 not_dns_47⟩
+    ⟨validName_not_mem hq.1 not_dns_47, validName_not_mem hq.2 not_dns_47⟩ h
+
+/-- Why the guard is needed: with `/` inside a name or namespace two different
+policies have the same `ID()` (namespace `a/b` + name `c` vs namespace `a` + name `b/c`). -/
+theorem policy_id_ambiguous_without_guard :
+    (PolicyID.mk [99] [97, 47, 98] [78, 101, 116, 119, 111, 114, 107, 80, 111, 108, 105, 99, 121]).id =
+    (PolicyID.mk [98, 47, 99] [97] [78, 101, 116, 119, 111, 114, 107, 80, 111, 108, 105, 99, 121]).id := by
+  decide
+
+/-- `PolicyID.String()` (what a policy contributes to a group's hash) is injective
+on validated policies. -/
+theorem policy_string_injective {p q : PolicyID}
+    (hp : validName p.name ∧ validName p.namespace_) (hq : validName q.name ∧ validName q.namespace_)
+    (h : p.string = q.string) : p = q :=
+  policyString_injective
+    ⟨validName_not_mem hp.1 not_dns_44, validName_not_mem hp.2 not_dns_44⟩
+    ⟨validName_not_mem hq.1 not_dns_44, validName_not_mem hq.2 not_dns_44⟩ h
+
+/-- **The bytes hashed by `PolicyGroup.UniqueID()` determine the group**:
+direction, selector and the ORDERED list of policies including each policy's
+Kind, Namespace and Name. -/
+theorem group_prehash_injective {g1 g2 : Group} (v1 : g1.valid) (v2 : g2.valid)
+    (h : g1.preHash = g2.preHash) : g1 = g2 := by
+  have hdir : ∀ g : Group, 10 ∉ g.direction := by
+    intro g; unfold Group.direction; split <;> decide
+  have hitems : ∀ g : Group, g.valid → ∀ x ∈ g.items, 10 ∉ x := by
+    intro g v x hx
+    simp only [Group.items, List.mem_cons, List.mem_map] at hx
+    rcases hx with rfl | rfl | rfl | ⟨p, hp, rfl⟩
+    · exact v.1
+    · exact hdir g
+    · intro m; have := natDigits_range _ 10 m; omega
+    · have := v.2 p hp
+      exact policyString_no_newline
+        ⟨validName_not_mem this.1 not_dns_10, validName_not_mem this.2.1 not_dns_10, this.2.2⟩
+  unfold Group.preHash at h
+  rw [groupWrite_shape.2.1] at h
+  have hi := joinSep_injective (hitems g1 v1) (hitems g2 v2) h
+  simp only [Group.items, List.cons.injEq] at hi
+  obtain ⟨hs, hd, -, hp⟩ := hi
+  have hpol := map_string_injective
+    (fun p hp => ⟨validName_not_mem (v1.2 p hp).1 not_dns_44, validName_not_mem (v1.2 p hp).2.1 not_dns_44⟩)
+    (fun p hp => ⟨validName_not_mem (v2.2 p hp).1 not_dns_44, validName_not_mem (v2.2 p hp).2.1 not_dns_44⟩) hp
+  have hout : g1.outbound = g2.outbound := by
+    unfold Group.direction at hd
+    cases h1 : g1.outbound <;> cases h2 : g2.outbound <;> simp [h1, h2] at hd ⊢ <;>
+      exact absurd hd (by decide)
+  cases g1; cases g2
+  simp only [Group.mk.injEq]
+  exact ⟨hout, hs, hpol⟩
+
+/-- **Distinct policy groups get distinct chain names.** Hypothesis: the
+cryptographic one — the base64(SHA3-224) values of the two (different) pre-hash
+strings differ within the characters kept. -/
+theorem group_names_distinct (h3 : Bytes → Bytes) {g1 g2 : Group} (v1 : g1.valid) (v2 : g2.valid)
+    (hne : g1 ≠ g2)
+    (hcrypto : g1.preHash ≠ g2.preHash →
+      (h3 g1.preHash).take Gen.maxPolicyGroupUIDLength ≠ (h3 g2.preHash).take Gen.maxPolicyGroupUIDLength) :
+    g1.chainName h3 ≠ g2.chainName h3 := by
+  have hpre : g1.preHash ≠ g2.preHash := fun e => hne (group_prehash_injective v1 v2 e)
+  have huid := hcrypto hpre
+  unfold Group.chainName Group.uniqueID
+  cases h1 : g1.outbound <;> cases h2 : g2.outbound
+  · simp only [Bool.false_eq_true, if_false]; exact fun e => huid (List.append_cancel_left e)
+  · simp only [Bool.false_eq_true, if_false, if_true]
+    exact group_cross_prefix_distinct (by decide)
+  · simp only [Bool.false_eq_true, if_false, if_true]
+    exact group_cross_prefix_distinct (by decide)
+  · simp only [if_true]; exact fun e => huid (List.append_cancel_left e)
+
+/-- **Distinct validated policies get distinct policy chain names** (same
+direction prefix, same dataplane limit), composing `policy_id_injective` with
+`names_distinct`. Hypotheses: hash values have 43 characters and the hashes of
+the two ID strings differ within the characters kept. -/
+theorem policy_chain_names_distinct (hlen : ∀ s, (hash s).length = 43) {p q : PolicyID}
+    {pfx : Str} {m : Int} {n1 n2 : Str}
+    (kp : knownKind p.kind) (kq : knownKind q.kind)
+    (hp : validName p.name ∧ validName p.namespace_) (hq : validName q.name ∧ validName q.namespace_)
+    (hne : p ≠ q)
+    (hcrypto : (hash p.id).take (min (m - 1 - (pfx.length : Int)) 43).toNat ≠
+      (hash q.id).take (min (m - 1 - (pfx.length : Int)) 43).toNat)
+    (g1 : getLengthLimitedID hash pfx p.id m = some n1) (g2 : getLengthLimitedID hash pfx q.id m = some n2) :
+    n1 ≠ n2 := by
+  have hid : p.id ≠ q.id := fun e => hne (policy_id_injective kp kq hp hq e)
+  have nonempty : ∀ r : PolicyID, r.id ≠ [] := by
+    intro r; unfold PolicyID.id; split <;> simp
+  exact names_distinct hash hlen hid (nonempty p) (nonempty q) hcrypto g1 g2
+
+/-- Non-vacuity: a valid two-policy group, its pre-hash string, and the same
+group with one policy's Kind changed (a different pre-hash string). -/
+example : (Group.mk false [97] [⟨[112], [110], [75]⟩]).preHash =
+    [97, 10] ++ [105, 110, 98, 111, 117, 110, 100, 10] ++ [49, 10] ++
+    [123, 78, 97, 109, 101, 58, 32, 112, 44, 32, 78, 97, 109, 101, 115, 112, 97, 99, 101, 58, 32, 110,
+      44, 32, 75, 105, 110, 100, 58, 32, 75, 125, 10] := by
+  have hd : natDigits 1 = [49] := by rw [natDigits]; simp
+  simp [Group.preHash, Group.items, joinSep, groupWrite_shape.2.1, Group.direction,
+    policyString_eq, hd, Gen.directionInbound]
+example : (Group.mk false [97] [⟨[112], [110], [75]⟩]).valid := by
+  refine ⟨by decide, ?_⟩
+  intro p hp
+  simp only [List.mem_singleton] at hp
+  subst hp
+  refine ⟨?_, ?_, by decide⟩ <;> intro c hc <;> simp at hc <;> subst hc <;> unfold dnsChar <;> omega
 
 end CalicoVerif.C37
